@@ -16,11 +16,16 @@ P == INSTANCE Polarization WITH Add <- DAdd, Sub <- DSub, Mul <- DMul, Zero <- D
                                 Abs <- DAbs, Leq <- DLe, Near <- DNear
 Trace == JsonDeserialize(IOEnv.TRACE_FILE)
 VARIABLE l
+\* a ray that reached the image (finite direction: the recorder drops the others) carries a finite
+\* intensity and a finite polarization matrix
+TraceFin(e) == /\ IsFin(e.i)
+               /\ \A i \in 1..Len(e.P) : \A j \in 1..Len(e.P[i]) : IsFin(e.P[i][j][1]) /\ IsFin(e.P[i][j][2])
+UnpolFin(e) == IsFin(e.iu) /\ IsFin(e.ia) /\ IsFin(e.ib)
 Judge(e) ==
   CASE e.t = "fresnel" -> P!JudgeFresnel(e)
     [] e.t = "element" -> P!JudgeElement(e)
-    [] e.t = "trace" -> P!JudgeTrace(e)
-    [] e.t = "unpol" -> P!JudgeUnpolarized(e)
+    [] e.t = "trace" -> IF TraceFin(e) THEN P!JudgeTrace(e) ELSE {"field_finite"}
+    [] e.t = "unpol" -> IF UnpolFin(e) THEN P!JudgeUnpolarized(e) ELSE {"field_finite"}
     [] e.t = "surface" -> P!JudgeSurface(e)
     [] OTHER -> {"unknown_event"}
 Init == l = 0
